@@ -186,6 +186,12 @@ func RunSession(s Session) mon.Result {
 	nontrivial := false
 	var sample map[string]interface{}
 
+	paths := map[int]string{} // operation index -> command file (removed at the end of the session)
+	defer func() {
+		for _, f := range paths {
+			os.Remove(f)
+		}
+	}()
 	var shared []util.Option // the option slice variable of the current share group
 	sharedFrom := -1
 	for oi := range s.Ops {
@@ -266,7 +272,37 @@ func RunSession(s Session) mon.Result {
 			panic("c13 harness: option list inconsistent with the operation's flags: " + v)
 		}
 		before := optionIDs(opo)
-		out, cerr := call(gd, nd, o.API, cmds, opo)
+		file := ""
+		if strings.HasSuffix(o.API, "file") {
+			content := strings.Join(cmds, "\n") + "\n"
+			if o.FileOf > 0 {
+				// the same path again, rewritten in between
+				file = paths[o.FileOf-1]
+				st, serr := os.Stat(file)
+				if file == "" || serr != nil {
+					panic(fmt.Sprintf("c13 harness: operation %d re-uses the file of operation %d, which has none", oi, o.FileOf-1))
+				}
+				if o.FileSameStat && st.Size() != int64(len(content)) {
+					panic(fmt.Sprintf("c13 harness: same-length rewrite has %d bytes, file had %d", len(content), st.Size()))
+				}
+				if werr := os.WriteFile(file, []byte(content), 0o644); werr != nil {
+					panic("c13 harness: cannot rewrite command file: " + werr.Error())
+				}
+				if o.FileSameStat {
+					if terr := os.Chtimes(file, st.ModTime(), st.ModTime()); terr != nil {
+						panic("c13 harness: cannot restore the modification time: " + terr.Error())
+					}
+				}
+			} else {
+				var werr error
+				file, werr = writeCmdFile(cmds)
+				if werr != nil {
+					panic("c13 harness: cannot write command file: " + werr.Error())
+				}
+			}
+			paths[oi] = file
+		}
+		out, cerr := call(gd, nd, o.API, cmds, opo, file)
 		if !sameIDs(before, optionIDs(opo)) {
 			// observed only: C13 says nothing about the caller's slice; any consequence the property
 			// cares about shows in the next operation of the re-use group
@@ -277,7 +313,7 @@ func RunSession(s Session) mon.Result {
 		bad := func(v verdict) mon.Result {
 			return mon.Result{Verdict: mon.Violated, Key: v.key,
 				Detail: fmt.Sprintf("operation %d (%s, stop=%v, strip=%v, driver list %q, operation list given=%v %q, marks %s): %s",
-					oi, o.API, o.Stop, o.Strip, s.DL, o.OLGiven, o.OL, marks(o), v.detail) + fmt.Sprintf(" [option order %v: %s; repeat %q; long %q; slice %q]", names, OptShape(names), o.Repeat, o.Long, o.Share),
+					oi, o.API, o.Stop, o.Strip, s.DL, o.OLGiven, o.OL, marks(o), v.detail) + fmt.Sprintf(" [option order %v: %s; repeat %q; long %q; slice %q; file of %d same-stat %v]", names, OptShape(names), o.Repeat, o.Long, o.Share, o.FileOf-1, o.FileSameStat),
 				Events: tail(conn.Log(), 60), NonTrivial: true, Obs: obs}
 		}
 		if cerr != nil && Oversize(o) && !errors.Is(cerr, util.ErrTimeoutError) {
@@ -434,6 +470,43 @@ func RunSession(s Session) mon.Result {
 				}
 			}
 		}
+		if o.FileOf > 0 {
+			if o.FileSameStat {
+				obs["fromfile_path_reused_same_length_same_mtime"]++
+				obs["fromfile_path_reused_same_length_same_mtime:api_"+o.API]++
+				tag("fromfile_path_reused=same-stat")
+			} else {
+				obs["fromfile_path_reused_control_other_length"]++
+				tag("fromfile_path_reused=control")
+			}
+		}
+		if n > 100 {
+			obs["lists_over_100_commands"]++
+			if mode == "configuration" {
+				obs["config_push_over_100_lines"]++
+				obs["config_push_over_100_lines:api_"+o.API]++
+				if o.Stop {
+					ff := 0
+					for i := range fails {
+						if fails[i] {
+							ff = i + 1
+							break
+						}
+					}
+					switch {
+					case ff == 0:
+					case ff%100 == 0 && ff < n:
+						obs["config_push_stop_first_failure_at_multiple_of_100"]++
+						tag("config_push_first_failure=%d", ff)
+					case (ff%100 == 1 || ff%100 == 99) && ff > 1:
+						obs["config_push_stop_first_failure_next_to_multiple_of_100"]++
+						tag("config_push_first_failure=%d", ff)
+					default:
+						obs["config_push_stop_first_failure_elsewhere"]++
+					}
+				}
+			}
+		}
 		if strings.HasSuffix(o.API, "file") {
 			size := 0
 			for _, c := range cmds {
@@ -586,15 +659,7 @@ func marks(o *Op) string {
 }
 
 // call performs one library call.
-func call(gd *generic.Driver, nd *network.Driver, api string, cmds []string, opo []util.Option) (out outcome, err error) {
-	var file string
-	if strings.HasSuffix(api, "file") {
-		file, err = writeCmdFile(cmds)
-		if err != nil {
-			panic("c13 harness: cannot write command file: " + err.Error())
-		}
-		defer os.Remove(file)
-	}
+func call(gd *generic.Driver, nd *network.Driver, api string, cmds []string, opo []util.Option, file string) (out outcome, err error) {
 	var m *response.MultiResponse
 	switch api {
 	case "each":
@@ -892,9 +957,13 @@ func init() {
 			"(identical failed members; the aggregate is compared by position and pointer identity, not by value), or as controls the same text with differing outputs / differing texts with identical output. " +
 			"About 1/8 of the from-file operations (1/40 of the others, as a control) contain one command line of 4097-65000 bytes (boundary 4097-4099, two, three/four and many 4096-byte buffers; " +
 			"short ones only where reads are tiny), which must reach the device as one line; 1/100 of the from-file operations have a line of 65536-70000 bytes (error with nothing sent, or everything sent). " +
-			"About one operation in eight is followed by 1-2 extra operations (other command lists, any entry point of the driver) that are called with the very same option slice variable " +
+			"About one operation in ten is followed by 1-2 extra operations (other command lists, any entry point of the driver) that are called with the very same option slice variable " +
 			"(always holding an option of another layer, in every order relative to the generic ones); whether a call modified the caller's option slice is counted (caller_option_slice_modified_by_call), never judged. " +
 			"A few sessions (quick 8, thorough 36) send one command file of 300-600 short lines (5-11 KiB) or 4000-4500 short lines (> 64 KiB). " +
+			"About one from-file operation in ten is followed by 1-2 from-file operations (any from-file door of the driver) on the SAME path, the file rewritten in between: " +
+			"in three groups of four with content of the same byte length and the old modification time restored (os.Chtimes), else as an ordinary rewrite. " +
+			"Network sessions with pushes of 101-350 lines (SendConfigs, SendConfig, SendConfigsFromFile; SendCommands(FromFile) as control) with stop-on-failed and the first rejected line at " +
+			"1-based positions 99, 100, 101, 199, 200, 201, 300 and random ones (quick 11 sessions, thorough 44). " +
 			"Decoys: unlisted string, driver-level string while an operation-level list overrides it, string of another operation's list, string only in the echoed command, " +
 			"case variant, string broken by a newline, proper prefix. Placement first/middle/last line x start/mid/end/whole line, optionally broken by an escape sequence or CR, several per output. " +
 			"Non-trivial = a session in which at least one returned member failed per the reference (a failure string in force is present in some output). Distinct = distinct descriptor hash.",
